@@ -117,9 +117,43 @@ def clean_dir(d):
                 pass
 
 
+_COV = {"on": False, "lines": set()}
+
+
+def _cov_start():
+    """development aid (KV_COVERAGE=<dir>): which lines of the package do the checks execute?  sys.monitoring LINE
+    events, each location disabled after its first hit, so the overhead is negligible."""
+    if _COV["on"] or not os.environ.get("KV_COVERAGE"):
+        return
+    mon = sys.monitoring
+    tid = mon.COVERAGE_ID
+    try:
+        mon.use_tool_id(tid, "kvcov")
+    except ValueError:
+        pass
+
+    def on_line(code, line):
+        fn = code.co_filename
+        if "amr_kitchen" in fn:
+            _COV["lines"].add((fn, line))
+        return mon.DISABLE
+    mon.register_callback(tid, mon.events.LINE, on_line)
+    mon.set_events(tid, mon.events.LINE)
+    _COV["on"] = True
+
+
+def _cov_dump():
+    if _COV["on"]:
+        d = os.environ["KV_COVERAGE"]
+        os.makedirs(d, exist_ok=True)
+        with open(os.path.join(d, "%d_%d.json" % (os.getpid(), int(time.time() * 1e6))), "w") as f:
+            json.dump(sorted(_COV["lines"]), f)
+
+
 def _run_chunk(chunk):
     mod = _WORK["mod"]
     out = []
+    _cov_start()
     for ci, case in chunk:
         d = _WORK["dir"]
         clean_dir(d)
@@ -137,6 +171,7 @@ def _run_chunk(chunk):
         res["wall"] = time.time() - t0
         out.append(res)
     clean_dir(_WORK["dir"])
+    _cov_dump()
     return out
 
 
